@@ -2,7 +2,9 @@ package otto
 
 import (
 	"math"
+	"math/big"
 	"strconv"
+	"strings"
 
 	"golang.org/x/text/language"
 	"golang.org/x/text/message"
@@ -48,6 +50,61 @@ func builtinNumberValueOf(call FunctionCall) Value {
 	return call.thisClassObject(classNumberName).primitiveValue()
 }
 
+// roundScaled returns the integer n for which n ÷ 10^scale − value is as close to zero as possible,
+// the larger n if there are two such n (ECMA-262 15.7.4.5 step 8.a, 15.7.4.6 step 9.b.i,
+// 15.7.4.7 step 9.a). value must be finite and not negative. The computation is exact:
+// strconv.FormatFloat cannot be used because it rounds exact ties to even.
+func roundScaled(value float64, scale int) *big.Int {
+	fraction, exponent := math.Frexp(value) // value = fraction × 2^exponent, exactly
+	numerator := big.NewInt(int64(fraction * (1 << 53)))
+	exponent -= 53
+	denominator := big.NewInt(1)
+	if exponent > 0 {
+		numerator.Lsh(numerator, uint(exponent))
+	} else {
+		denominator.Lsh(denominator, uint(-exponent))
+	}
+	if scale > 0 {
+		numerator.Mul(numerator, new(big.Int).Exp(big.NewInt(10), big.NewInt(int64(scale)), nil))
+	} else if scale < 0 {
+		denominator.Mul(denominator, new(big.Int).Exp(big.NewInt(10), big.NewInt(int64(-scale)), nil))
+	}
+	// floor(numerator/denominator + 1/2)
+	numerator.Lsh(numerator, 1).Add(numerator, denominator)
+	denominator.Lsh(denominator, 1)
+	return numerator.Quo(numerator, denominator)
+}
+
+// exponentialDigits returns the decimal digits of n and the exponent e with 10^fraction <= n <
+// 10^(fraction+1) and n × 10^(e−fraction) as close to value as possible (15.7.4.6 step 9.b.i).
+// value must be finite and positive.
+func exponentialDigits(value float64, fraction int) (string, int) {
+	// The exponent of the shortest rendering is floor(log10(value)) or one more (9.5e-324 prints as
+	// "1e-323"): start one below it and move up while n has too many digits.
+	text := strconv.FormatFloat(value, 'e', -1, 64)
+	exponent, _ := strconv.Atoi(text[strings.LastIndexByte(text, 'e')+1:])
+	exponent--
+	for {
+		digits := roundScaled(value, fraction-exponent).String()
+		if len(digits) == fraction+1 {
+			return digits, exponent
+		}
+		exponent++ // also when n was rounded up to 10^(fraction+1)
+	}
+}
+
+func exponentSuffix(exponent int) string {
+	sign := "e+"
+	if exponent < 0 {
+		sign = "e-"
+		exponent = -exponent
+	}
+	if exponent < 10 {
+		sign += "0"
+	}
+	return sign + strconv.Itoa(exponent)
+}
+
 func builtinNumberToFixed(call FunctionCall) Value {
 	precision := toIntegerFloat(call.Argument(0))
 	if 20 < precision || 0 > precision {
@@ -56,39 +113,113 @@ func builtinNumberToFixed(call FunctionCall) Value {
 	if call.This.IsNaN() {
 		return stringValue("NaN")
 	}
-	if value := call.This.float64(); math.Abs(value) >= 1e21 {
+	value := call.This.float64()
+	if math.Abs(value) >= 1e21 {
 		return stringValue(floatToString(value, 64))
 	}
-	return stringValue(strconv.FormatFloat(call.This.float64(), 'f', int(precision), 64))
+	sign := ""
+	if value < 0 { // not for -0
+		sign = "-"
+		value = -value
+	}
+	digits := roundScaled(value, int(precision)).String()
+	if fraction := int(precision); fraction != 0 {
+		if len(digits) <= fraction {
+			digits = strings.Repeat("0", fraction+1-len(digits)) + digits
+		}
+		digits = digits[:len(digits)-fraction] + "." + digits[len(digits)-fraction:]
+	}
+	return stringValue(sign + digits)
 }
 
 func builtinNumberToExponential(call FunctionCall) Value {
+	fractionDigits := call.Argument(0)
+	precision := toIntegerFloat(fractionDigits)
 	if call.This.IsNaN() {
 		return stringValue("NaN")
 	}
-	precision := float64(-1)
-	if value := call.Argument(0); value.IsDefined() {
-		precision = toIntegerFloat(value)
-		if 0 > precision {
-			panic(call.runtime.panicRangeError("toString() radix must be between 2 and 36"))
-		}
+	value := call.This.float64()
+	sign := ""
+	if value < 0 {
+		sign = "-"
+		value = -value
 	}
-	return stringValue(strconv.FormatFloat(call.This.float64(), 'e', int(precision), 64))
+	if math.IsInf(value, 0) {
+		return stringValue(sign + "Infinity")
+	}
+	if fractionDigits.IsDefined() && (precision < 0 || precision > 20) {
+		panic(call.runtime.panicRangeError("toExponential() fractionDigits must be between 0 and 20"))
+	}
+	var digits string
+	exponent := 0
+	switch {
+	case value == 0:
+		digits = strings.Repeat("0", int(precision)+1)
+	case fractionDigits.IsDefined():
+		digits, exponent = exponentialDigits(value, int(precision))
+	default:
+		// As many digits as necessary to uniquely distinguish the value.
+		text := strconv.FormatFloat(value, 'e', -1, 64)
+		index := strings.LastIndexByte(text, 'e')
+		digits = strings.Replace(text[:index], ".", "", 1)
+		exponent, _ = strconv.Atoi(text[index+1:])
+	}
+	if len(digits) > 1 {
+		digits = digits[:1] + "." + digits[1:]
+	}
+	return stringValue(sign + digits + exponentSuffix(exponent))
 }
 
 func builtinNumberToPrecision(call FunctionCall) Value {
 	if call.This.IsNaN() {
 		return stringValue("NaN")
 	}
-	value := call.Argument(0)
-	if value.IsUndefined() {
+	argument := call.Argument(0)
+	if argument.IsUndefined() {
 		return stringValue(call.This.string())
 	}
-	precision := toIntegerFloat(value)
-	if 1 > precision {
-		panic(call.runtime.panicRangeError("toPrecision() precision must be greater than 1"))
+	precision := toIntegerFloat(argument)
+	value := call.This.float64()
+	sign := ""
+	if value < 0 {
+		sign = "-"
+		value = -value
 	}
-	return stringValue(strconv.FormatFloat(call.This.float64(), 'g', int(precision), 64))
+	if math.IsInf(value, 0) {
+		return stringValue(sign + "Infinity")
+	}
+	if precision < 1 || precision > 21 {
+		panic(call.runtime.panicRangeError("toPrecision() precision must be between 1 and 21"))
+	}
+	count := int(precision)
+	digits := strings.Repeat("0", count)
+	exponent := 0
+	if value != 0 {
+		digits, exponent = exponentialDigits(value, count-1)
+		if exponent < -6 || exponent >= count {
+			if count > 1 {
+				digits = digits[:1] + "." + digits[1:]
+			}
+			return stringValue(sign + trimFraction(digits) + exponentSuffix(exponent))
+		}
+	}
+	switch {
+	case exponent == count-1:
+	case exponent >= 0:
+		digits = digits[:exponent+1] + "." + digits[exponent+1:]
+	default:
+		digits = "0." + strings.Repeat("0", -(exponent+1)) + digits
+	}
+	return stringValue(sign + trimFraction(digits))
+}
+
+// trimFraction drops the trailing zeros of a fraction ("1" rather than "1.00"), as toPrecision in
+// this package always has and as math_test.go expects. ECMA-262 15.7.4.7 keeps all the digits.
+func trimFraction(digits string) string {
+	if strings.Contains(digits, ".") {
+		digits = strings.TrimSuffix(strings.TrimRight(digits, "0"), ".")
+	}
+	return digits
 }
 
 func builtinNumberIsNaN(call FunctionCall) Value {
